@@ -154,31 +154,37 @@ def gen_table(rng):
         return {"fmt": fmt, "text": buf.getvalue(), "header": header, "rows": rows}
     if fmt == "arff":
         kinds = [rng.choice(["numeric", "nominal", "string"]) for _ in range(n_cols)]
-        levels = ["A", "B b", "C"]
+        pool = ["A", "B b", "C", "d,e", "0", "1"]
+        q = lambda v: f"'{v}'" if (" " in v or "," in v) else v
         lines = ["@relation r"]
+        col_levels = []
         for c, k in enumerate(kinds):
+            # every nominal column declares its own levels: a sample of the pool in its own order (two columns may well declare the
+            # same levels in a different order, or the same list); what is read back must carry the column's own declaration
+            lv = rng.sample(pool, 2 + rng.randrange(3)) if rng.random() < 0.7 else ["A", "B b", "C"]
+            col_levels.append(lv if k == "nominal" else None)
             if k == "numeric":
                 lines.append(f"@attribute n{c} numeric")
             elif k == "nominal":
-                lines.append(f"@attribute c{c} {{A,'B b',C}}")
+                lines.append(f"@attribute c{c} {{{','.join(map(q, lv))}}}")
             else:
                 lines.append(f"@attribute s{c} string")
         lines.append("@data")
         rows = []
         for _ in range(n_rows):
             row, cells = [], []
-            for k in kinds:
+            for c, k in enumerate(kinds):
                 if k == "numeric":
                     v = rng.choice([0, 1, 2.5, -3, 10])
                     row.append(float(v)); cells.append(str(v))
                 elif k == "nominal":
-                    v = rng.choice(levels)
-                    row.append(v); cells.append(f"'{v}'" if " " in v else v)
+                    v = rng.choice(col_levels[c])
+                    row.append(v); cells.append(q(v))
                 else:
                     v = rng.choice(["é", "x y", "plain"])
                     row.append(v); cells.append(f"'{v}'")
             rows.append(row); lines.append(",".join(cells))
-        return {"fmt": fmt, "text": eol.join(lines) + eol, "kinds": kinds, "rows": rows}
+        return {"fmt": fmt, "text": eol.join(lines) + eol, "kinds": kinds, "rows": rows, "levels": col_levels}
     rows, lines = [], []
     for _ in range(n_rows):
         lab = str(rng.randrange(3))
@@ -211,7 +217,7 @@ class C12:
              "thorough": {"runs": 2000000, "budget_s": 840, "chunk": 400, "twice_every": 0, "shrink_s": 60}}
     rule = ("delivery: one evaluation = one payload (adversarial text with LF/CRLF/lone CR/blank lines/unterminated last line, 2-4 byte "
             "UTF-8 characters, occasionally other Unicode line boundaries; or a small table serialised as RFC-4180 CSV / dense ARFF / "
-            "LibSVM / Manik) delivered through the real HttpSource path for EVERY chunk_size 1..len(bytes)+1 x {identity, gzip, deflate} "
+            "LibSVM / Manik; nominal ARFF columns each declare their own level list and the cells' levels/as_int/as_onehot are compared) delivered through the real HttpSource path for EVERY chunk_size 1..len(bytes)+1 x {identity, gzip, deflate} "
             "plus 6 seeded short-read schedules; disk: one evaluation = one list of lines written with the real DiskSink (plain/.gz, every "
             "batch setting, several writes) and read back with DiskSource. non-trivial = payload has a multi-byte character or a CR; "
             "distinct = distinct payload digest")
@@ -320,6 +326,18 @@ class C12:
                 want = cfg["rows"] if cfg["fmt"] != "csv" else cfg["rows"]
                 if cfg["fmt"] in ("libsvm", "manik"):
                     want = [[{int(k): v for k, v in x.items()}, y] for x, y in want]
+                if got == want and cfg["fmt"] == "arff":
+                    # "categorical levels": a nominal cell carries its column's declared levels, in the declared order, and its index in them
+                    for ri, r_ in enumerate(got):
+                        for ci, (cell, lv) in enumerate(zip(r_, cfg.get("levels") or [])):
+                            if lv is None:
+                                continue
+                            out["counters"]["nominal_cells_checked"] = out["counters"].get("nominal_cells_checked", 0) + 1
+                            oh = tuple(int(j == lv.index(str(cell))) for j in range(len(lv)))
+                            if list(getattr(cell, "levels", [])) != lv or getattr(cell, "as_int", None) != lv.index(str(cell)) or getattr(cell, "as_onehot", None) != oh:
+                                vios["table"] = vio("nominal_levels_misread", f"arff row {ri} column {ci}: value {str(cell)!r} declared levels {lv} but the cell "
+                                                    f"carries levels={getattr(cell, 'levels', None)} as_int={getattr(cell, 'as_int', None)} as_onehot={getattr(cell, 'as_onehot', None)}",
+                                                    key="nominal_levels_misread")
                 if got != want:
                     vios["table"] = vio("table_misread", f"{cfg['fmt']} table delivered with chunk_size={size} encoding={enc}: parsed {got!r}, written {want!r}",
                                         key=f"table_misread:{cfg['fmt']}")
